@@ -99,6 +99,7 @@ def check(ctx: Ctx) -> None:
     r3(ctx, ops)
     r4(ctx)
     r4_encoding(ctx)
+    r3_values_verbatim(ctx)
     r5(ctx)
     r6(ctx)
 
@@ -403,6 +404,24 @@ def r4(ctx: Ctx) -> None:
                                                    '`category: ` without tags is rejected by the .rules loader, which makes the whole file unloadable', cat_lines[0] if cat_lines else f.node)
     else:
         ctx.ok('C14.R4', f, 'rows without category and tags are handled before emission', construct='domain:empty-category')
+
+
+def r3_values_verbatim(ctx: Ctx) -> None:
+    """The thresholds of a legacy modifier are written into the generated expression with their full value: a format spec (`:g`, `:.2f`) or a
+    rounding call on the way changes the number the migrated rule compares with."""
+    conv = ctx.proj.func('merchant_engine._modifier_to_expr')
+    fl = get_flow(ctx.proj, conv)
+    n = 0
+    for js in [x for x in all_nodes(conv.node) if isinstance(x, ast.JoinedStr)]:
+        for v in js.values:
+            if not isinstance(v, ast.FormattedValue) or not any(isinstance(a, ast.Attribute) and a.attr in ('value', 'min_value', 'max_value', 'month') for a in ast.walk(v.value)):
+                continue
+            n += 1
+            lossy = v.format_spec is not None or any(isinstance(c, ast.Call) and call_name(c) in ('round', 'int', 'format') for c in ast.walk(v.value))
+            ctx.check(not lossy, 'C14.R3', conv, f'verbatim:{src(v.value)[:30]}', f'{src(v.value)} is written as it is',
+                      f'{src(v.value)!r} is written through a format spec / rounding: thresholds with more digits than that keeps ([amount=12450.75]) migrate to another number', js)
+    if n == 0:
+        ctx.unknown('C14.R3', conv, 'no threshold holes found in the f-strings of _modifier_to_expr')
 
 
 def r4_encoding(ctx: Ctx) -> None:
